@@ -252,7 +252,7 @@ pub fn scenario(rng: &mut Rng, tier: Tier) -> Scenario {
         if i == 1 && !cfg.actions.iter().any(|a| matches!(a, ActionKind::Print0 | ActionKind::FPrint | ActionKind::FPrint0 | ActionKind::FPrintf | ActionKind::PrintfRaw)) {
             cfg.actions.push(ActionKind::FPrint);
         }
-        subjects.push(gen::expression(rng, &cfg));
+        subjects.push(if rng.chance(1, 80) { gen::report_expression(rng) } else { gen::expression(rng, &cfg) });
     }
     // swarm: class mix per run; fault-free (no hostile) and hostile configurations both occur
     let mix = match rng.below(4) {
@@ -291,6 +291,45 @@ pub fn scenario(rng: &mut Rng, tier: Tier) -> Scenario {
             };
             if !paths.contains(&alias) {
                 paths.push(alias);
+            }
+        }
+    }
+    // siblings: device names of one installation differ in ONE place — the controller in the
+    // middle of a by-path name, the volume group inside a mapper name, the last digit — and are
+    // otherwise equal, length included. A key that samples a path (length, head, tail, every
+    // n-th byte) cannot tell them apart.
+    if rng.chance(1, 3) {
+        let base = match rng.below(5) {
+            0 => "/dev/disk/by-path/pci-0000:3b:00.0-nvme-1-part1".to_string(),
+            1 => "/dev/mapper/vg_scratch1-lv_scratch_mdt0".to_string(),
+            2 => "/dev/disk/by-id/dm-uuid-mpath-3600a098000000000c0fb4b6daef0a9e4".to_string(),
+            3 => format!("/dev/disk/by-path/pci-0000:{:02x}:00.0-fc-0x5000{:08x}-lun-0", rng.below(256), rng.below(1 << 32)),
+            _ => {
+                let p = paths[1 + rng.usize_below(paths.len() - 1)].clone();
+                if p.chars().count() >= 8 { p } else { format!("/dev/mapper/{p}-lustre-mdt-volume-000") }
+            }
+        };
+        let chars: Vec<char> = base.chars().collect();
+        if !paths.contains(&base) {
+            paths.push(base.clone());
+        }
+        for _ in 0..rng.range(1, 3) {
+            let at = match rng.below(4) {
+                0 => rng.usize_below(chars.len().min(4)),
+                1 => chars.len() - 1 - rng.usize_below(chars.len().min(4)),
+                _ => chars.len() / 3 + rng.usize_below(chars.len() / 3 + 1),
+            }
+            .min(chars.len() - 1);
+            let mut v = chars.clone();
+            let alphabet: Vec<char> = "0123456789abcdefxyzABC_".chars().collect();
+            let mut c = *rng.pick(&alphabet);
+            if c == v[at] {
+                c = if c == '7' { '8' } else { '7' };
+            }
+            v[at] = c;
+            let sibling: String = v.into_iter().collect();
+            if !paths.contains(&sibling) {
+                paths.push(sibling);
             }
         }
     }
